@@ -225,8 +225,9 @@ pub fn check_pair<F: Real>(pc: &PairCase, exact_int: bool, tol: f64, st: &mut Pi
     let viol = |m: String| PiVerdict::Violation(format!("{} [relation {:?}{} same_operand={} rc={} outcome={:?}]", m, rel, sub, same_op, o.rc, o));
     // argument order independence (roles of typing may swap; a computed crossing point may differ by rounding,
     // because it is evaluated along whichever segment is given first)
-    let close = |x: &Vec<Pt>, y: &Vec<Pt>| x.len() == y.len() && x.iter().zip(y.iter()).all(|(p, q)| if rel == Rel::Cross { (p.0 - q.0).abs() <= tol && (p.1 - q.1).abs() <= tol } else { p == q });
-    if o.rc != o_sw.rc || !close(&o.a.cuts, &o_sw.a.cuts) || !close(&o.b.cuts, &o_sw.b.cuts) || o.queued != o_sw.queued {
+    let close = |x: &Vec<Pt>, y: &Vec<Pt>| x.len() == y.len() && x.iter().zip(y.iter()).all(|(p, q)| if rel == Rel::Cross || (rel == Rel::Tee && !exact_int) { (p.0 - q.0).abs() <= tol && (p.1 - q.1).abs() <= tol } else { p == q });
+    let float_tee = rel == Rel::Tee && !exact_int;
+    if !float_tee && (o.rc != o_sw.rc || !close(&o.a.cuts, &o_sw.a.cuts) || !close(&o.b.cuts, &o_sw.b.cuts) || o.queued != o_sw.queued) {
         return viol(format!("outcome depends on the argument order: swapped gives {:?}", o_sw));
     }
     match rel {
@@ -290,6 +291,27 @@ pub fn check_pair<F: Real>(pc: &PairCase, exact_int: bool, tol: f64, st: &mut Pi
                 (s1.1, false)
             };
             let (cont, other) = if a_contains { (&o.a, &o.b) } else { (&o.b, &o.a) };
+            if !exact_int && o.rc == 1 && cont.cuts.len() == 1 && other.cuts.len() == 1 {
+                // Float pairs (quantifier of C16: containment and common-point clauses only): when the contact point is
+                // not recognised bit-exactly as an endpoint, both segments are cut; they must then be cut at one common
+                // point inside both bounding boxes and within tolerance of the contact point.
+                let (pa, pb) = (cont.cuts[0], other.cuts[0]);
+                if pa != pb {
+                    if bumped && is_n2(o.a.cuts[0], o.b.cuts[0], s1, s2, F::IS_F32) {
+                        st.known_n2 += 1;
+                        return PiVerdict::KnownN2(format!("division points {:?} / {:?}", pa, pb));
+                    }
+                    return viol(format!("T contact in floating coordinates: the two segments were divided at different points {:?} and {:?}", pa, pb));
+                }
+                if !in_both_boxes(pa, s1, s2) {
+                    return viol(format!("T contact in floating coordinates: division point {:?} lies outside the bounding box of a segment", pa));
+                }
+                if (pa.0 - touch.0).abs() > tol || (pa.1 - touch.1).abs() > tol {
+                    return viol(format!("T contact in floating coordinates: division point {:?} is farther than {:e} from the contact point {:?}", pa, tol, touch));
+                }
+                bump(st, "Tee (float): both segments cut at one common point next to the contact point".into());
+                return PiVerdict::Ok;
+            }
             if o.rc != 1 || cont.cuts.len() != 1 || !other.cuts.is_empty() {
                 return viol("T contact: expected exactly the containing segment to be divided once".into());
             }
@@ -485,6 +507,23 @@ pub fn gen_float_pair(rng: &mut Rng, f32_run: bool) -> Option<PairCase> {
     }
     let subj1 = rng.below(2) == 0;
     Some(PairCase { s1, s2, subj1, subj2: !subj1, in_out1: rng.below(2) == 0, in_out2: rng.below(2) == 0, f32_run })
+}
+
+/// T contact with "dirty" decimal coordinates: an endpoint of the first segment lies exactly on an axis-parallel
+/// second segment (same ordinate / abscissa, strictly between its ends); `a1 + 1*(a2-a1)` need not reproduce a2
+pub fn gen_decimal_tee(rng: &mut Rng) -> PairCase {
+    let dec = |rng: &mut Rng| rng.range(-30, 30) as f64 / 10.0;
+    let scale = [1.0, 1.0, 7.0, 0.001][rng.below(4) as usize];
+    let p = (dec(rng) * scale, dec(rng) * scale); // the contact point, an endpoint of s1
+    let mut q = (dec(rng) * scale, dec(rng) * scale); // the other endpoint of s1
+    if q == p {
+        q.0 += 0.1 * scale;
+    }
+    let (r1, r2) = ((rng.range(1, 25) as f64 / 10.0) * scale, (rng.range(1, 25) as f64 / 10.0) * scale);
+    let horizontal = rng.below(2) == 0;
+    let s2 = if horizontal { ((p.0 - r1, p.1), (p.0 + r2, p.1)) } else { ((p.0, p.1 - r1), (p.0, p.1 + r2)) };
+    let subj1 = rng.below(2) == 0;
+    PairCase { s1: (q, p), s2, subj1, subj2: !subj1, in_out1: rng.below(2) == 0, in_out2: rng.below(2) == 0, f32_run: false }
 }
 
 /// exactly parallel segments a tiny distance apart with overlapping bounding boxes (disjoint, but any absolute
